@@ -39,6 +39,8 @@ CHECKS = {
          "finite sub-domain enumerated completely in the thorough tier (quick: one residue class mod 16) plus generated-input search; exact oracle"),
  "C14": ("model-based testing: Hypothesis-generated update_pose/query histories vs a freshly constructed collider at the last pose",
          "generated operation sequences (poses as fresh arrays or stack items) against a fresh-object oracle after every query; held on everything explored"),
+ "C20": ("differential testing: Hypothesis-generated call lists executed by three fresh interpreters (numba JIT, NUMBA_DISABLE_JIT=1, NUMBA_BOUNDSCHECK=1) and compared record by record",
+         "generated-input differential search over all jitted public entry points; held on everything explored"),
  "C05": ("model-based testing: Hypothesis-generated insertion/query histories vs list model with brute-force overlap; jit and boundscheck modes",
          "generated operation sequences against a reference model with structural invariants after every step; held on everything explored"),
 }
